@@ -64,6 +64,7 @@ def run(ctx):
     corefrag.run2(ctx, ctx.scale(300, 6000), hm)
     corefrag.run3(ctx, ctx.scale(300, 6000), hm)
     corefrag.run4(ctx, ctx.scale(300, 6000), hm)
+    corefrag.runt(ctx, ctx.scale(200, 4000), hm)
     n = ctx.scale(1500, 30000)
     ctx.extra["rule"] = ("documents drawn from an explicit content model (envelope, sentinel, frontmatter, META with one nested "
                          "level, separator, assignments, blocks with targets, section markers, lists, inline maps, zones, "
